@@ -35,12 +35,13 @@ MAX_ELEMS = 1 << 18
 class MTensor:
     """What the model knows about a node tensor: exact array, covariant / contravariant axes."""
 
-    __slots__ = ("arr", "cov", "con", "int8")
+    __slots__ = ("arr", "cov", "con", "int8", "free")
 
-    def __init__(self, arr, cov, con, int8=False):
+    def __init__(self, arr, cov, con, int8=False, free=0):
         self.arr = arr
-        self.cov = sorted(cov)
+        self.cov = sorted(cov)      # absolute axis numbers (as in the library), i.e. >= free
         self.con = sorted(con)
+        self.free = free            # 0, or 1: one leading collection axis (elementwise reading)
         # largest magnitude the dtype of the library-side array can hold if it is a narrow one, else 0:
         # True -> 127 (int8: epsilon, delta(n,n)), 1 -> bool, False/0 -> wide (int64, float64, complex128)
         self.int8 = 127 if int8 is True else int(int8)
@@ -99,34 +100,55 @@ class MDiagram:
         self.edges.append((si, ti, i, j))
 
     def size(self, tensors) -> int:
-        return math.prod(math.prod(tensors[t].shape) for t in self.nodes) if self.nodes else 0
+        if not self.nodes:
+            return 0
+        k = max([tensors[t].shape[0] for t in self.nodes if tensors[t].free] or [1])
+        return k * math.prod(math.prod(tensors[t].shape[tensors[t].free:]) for t in self.nodes)
 
-    def evaluate(self, tensors: dict[int, MTensor]) -> tuple[np.ndarray, int, int, float]:
-        """Exact value, number of covariant / contravariant result axes, and the L1 bound of the sum."""
-        arrs = [tensors[t].arr for t in self.nodes]
-        full = arrs[0]
-        bound = np.abs(arrs[0]).astype(np.float64)
-        for a in arrs[1:]:
-            full = np.multiply.outer(full, a)
-            bound = np.multiply.outer(bound, np.abs(a).astype(np.float64))
-        offs = np.cumsum([0] + [a.ndim for a in arrs])
-        labels = list(range(full.ndim))  # current position -> original global axis
-        for si, ti, i, j in self.edges:
-            a, b = offs[si] + i, offs[ti] + j
-            pa, pb = labels.index(a), labels.index(b)
-            full = np.trace(full, axis1=pa, axis2=pb)
-            bound = np.trace(bound, axis1=pa, axis2=pb)
-            labels = [x for x in labels if x not in (a, b)]
-        order = []
-        for k in range(len(self.nodes)):
-            order += [offs[k] + x for x in self.ucov[k]]
-        ncov = len(order)
-        for k in range(len(self.nodes)):
-            order += [offs[k] + x for x in self.ucon[k]]
-        ncon = len(order) - ncov
-        perm = [labels.index(x) for x in order]
-        full = np.transpose(full, perm) if perm else full
-        return np.asarray(full), ncov, ncon, float(np.max(bound)) if bound.size else 0.0
+    def common_k(self, tensors):
+        ks = {tensors[t].shape[0] for t in self.nodes if tensors[t].free}
+        return ks
+
+    def evaluate(self, tensors: dict[int, MTensor]):
+        """Exact value, number of covariant / contravariant result axes, the L1 bound of the sum and the number of
+        free (collection) axes of the result. Nodes with one leading collection axis of a common length k are
+        evaluated element by element (the free indices of all nodes are aligned), the results stacked in front."""
+        ks = self.common_k(tensors)
+        if len(ks) > 1:
+            raise ModelError("collection axes of different lengths")
+        K = next(iter(ks)) if ks else None
+        outs, bounds = [], []
+        ncov = ncon = 0
+        for e in range(K if K is not None else 1):
+            arrs = [tensors[t].arr[e] if tensors[t].free else tensors[t].arr for t in self.nodes]
+            fr = [tensors[t].free for t in self.nodes]
+            full = arrs[0]
+            bound = np.abs(arrs[0]).astype(np.float64)
+            for a in arrs[1:]:
+                full = np.multiply.outer(full, a)
+                bound = np.multiply.outer(bound, np.abs(a).astype(np.float64))
+            offs = np.cumsum([0] + [a.ndim for a in arrs])
+            labels = list(range(full.ndim))  # current position -> original global axis
+            for si, ti, i, j in self.edges:
+                a, b = offs[si] + i - fr[si], offs[ti] + j - fr[ti]
+                pa, pb = labels.index(a), labels.index(b)
+                full = np.trace(full, axis1=pa, axis2=pb)
+                bound = np.trace(bound, axis1=pa, axis2=pb)
+                labels = [x for x in labels if x not in (a, b)]
+            order = []
+            for k in range(len(self.nodes)):
+                order += [offs[k] + x - fr[k] for x in self.ucov[k]]
+            ncov = len(order)
+            for k in range(len(self.nodes)):
+                order += [offs[k] + x - fr[k] for x in self.ucon[k]]
+            ncon = len(order) - ncov
+            perm = [labels.index(x) for x in order]
+            full = np.transpose(full, perm) if perm else full
+            outs.append(np.asarray(full))
+            bounds.append(float(np.max(bound)) if np.size(bound) else 0.0)
+        if K is None:
+            return outs[0], ncov, ncon, bounds[0], 0
+        return np.stack(outs, axis=0), ncov, ncon, max(bounds) if bounds else 0.0, 1
 
 
 # ---------------------------------------------------------------------------------------------------------------------
@@ -151,6 +173,7 @@ def make_cfg(rng: random.Random) -> dict:
         "p_self_edge_new": rng.choice([0.0, 0.0, 0.02]),
         "exotic": rng.random() < 0.4,      # rank-0 nodes, length-1 axes, float/bool/int32 dtypes, non-contiguous layouts
         "many_small": rng.random() < 0.25,  # many low-rank nodes: diagrams with up to ~12 nodes
+        "colls": rng.choice([0, 0, 2, 3, 5]),   # length of the (single, common) collection axis of collection nodes
         "warm": [],
     }
 
@@ -172,9 +195,33 @@ def gen_tensor_recipe(rng, cfg, slot) -> tuple[dict, MTensor]:
         im = _nested(rng, shape)
         arr = np.array(re, dtype=np.int64) + 1j * np.array(im, dtype=np.int64)
         rec = {"slot": slot, "k": "ctensor", "a": [re, im], "kw": {"cov": cov}}
+    elif cfg.get("colls") and r >= 1 and rng.random() < 0.35:
+        # a collection of K such tensors (one leading free index): evaluated element by element
+        K = cfg["colls"]
+        big = [_nested(rng, shape) for _ in range(K)]
+        arr = np.array(big, dtype=np.int64)
+        dt = "i"
+        cap = 0
+        c3 = rng.random()
+        if c3 < 0.2:
+            dt, cap = "b", 1
+            arr = (arr != 0).astype(np.int64)
+            big = arr.astype(bool).tolist()
+        elif c3 < 0.4:
+            dt, cap = "i8", 127
+            arr = arr * rng.choice([20, 30])
+            big = arr.tolist()
+        rec = {"slot": slot, "k": "tensorcoll", "a": [big], "kw": {"cov": cov if cov else False, "rank": r, "dt": dt}}
+        return rec, MTensor(arr, [1 + i for i in cov], [1 + i for i in con], int8=cap, free=1)
     else:
         arr = np.array(re, dtype=np.int64)
         kw = {"cov": cov if cov else False, "dt": "i"}
+        if cfg.get("exotic") and rng.random() < 0.12:
+            # a narrow integer dtype with entries that overflow it quickly; mixed with wide nodes numpy must promote
+            kw["dt"] = "i8"
+            arr = arr * rng.choice([20, 30])
+            rec = {"slot": slot, "k": "tensor", "a": [arr.tolist()], "kw": kw}
+            return rec, MTensor(arr, cov, con, int8=127)
         if cfg.get("exotic"):
             c2 = rng.random()
             if c2 < 0.15:
@@ -296,7 +343,7 @@ class ProgGen:
 
     def tensor_cands(self, k=5):
         ts = sorted(self.tensors)
-        small = [t for t in ts if self.tensors[t].arr.ndim <= 4]
+        small = [t for t in ts if self.tensors[t].arr.ndim - self.tensors[t].free <= 4]
         return self.rng.sample(small, min(k, len(small)))
 
     def step(self, i: int) -> dict:
@@ -360,11 +407,12 @@ class ProgGen:
         d = self.diagrams[d_id]
         if r < 0.22 and d.nodes:
             st = {"i": i, "c": client, "op": "calc", "d": d_id}
-            arr, ncov, ncon, _b = d.evaluate(self.tensors)
-            if arr.ndim <= 4 and rng.random() < 0.4:
+            arr, ncov, ncon, _b, nfree = d.evaluate(self.tensors)
+            if arr.ndim - nfree <= 4 and rng.random() < 0.4:
                 t = self.new_t()
                 st["to"] = t
-                self.tensors[t] = MTensor(arr, range(ncov), range(ncov, ncov + ncon), _all_int8(d, self.tensors))
+                self.tensors[t] = MTensor(arr, range(nfree, nfree + ncov), range(nfree + ncov, nfree + ncov + ncon),
+                                          _all_int8(d, self.tensors), free=nfree)
             return st
         if r < 0.30:
             new = self.next_d
@@ -380,7 +428,8 @@ class ProgGen:
             for o in self.hist[d_id]:
                 for t in o[1:]:
                     if t not in mp:
-                        mp[t] = self.variant_of(t) if self.tensors[t].arr.ndim <= 4 and not self.tensors[t].int8 else t
+                        mp[t] = self.variant_of(t) if self.tensors[t].arr.ndim <= 4 and not self.tensors[t].int8 \
+                            and not self.tensors[t].free else t
                 ops.append([o[0]] + [mp[t] for t in o[1:]])
             twin = MDiagram()
             ok = True
@@ -415,12 +464,14 @@ class ProgGen:
             # rank-0 operands make `*` a scalar multiplication (is_numerical_scalar), not a diagram: not generated
             if a != b and self.tensors[a].arr.ndim and self.tensors[b].arr.ndim:
                 kind = rng.choice(["mul", "mul", "tprod"])
+                if self.tensors[a].free or self.tensors[b].free:
+                    kind = "mul"   # tensor_product is not implemented for collections
                 if self.tensors[a].arr.size * self.tensors[b].arr.size <= MAX_ELEMS:
                     return {"i": i, "c": client, "op": kind, "a": a, "b": b}
         if r < 0.50:
             a = rng.choice(self.tensor_cands(8))
             ra, na = self.tensors[a].arr.ndim, max(self.tensors[a].arr.shape, default=1)
-            if ra >= 1:
+            if ra >= 1 and not self.tensors[a].free:
                 ks = [k for k in (1, 2, 3, 4) if na ** (k * ra) <= MAX_ELEMS and k * ra <= 12]
                 if ks:
                     return {"i": i, "c": client, "op": "pow", "a": a, "k": rng.choice(ks)}
@@ -433,6 +484,7 @@ class ProgGen:
         cands = list(dict.fromkeys(d.nodes[-4:] + self.tensor_cands(4)))
         if rng.random() < cfg["p_self_edge_new"]:
             fresh = [t for t in self.tensor_cands(8) if t not in d.nodes and self.tensors[t].cov and self.tensors[t].con
+                     and not self.tensors[t].free
                      and max(d.size(self.tensors), 1) * self.tensors[t].arr.size ** 2 <= MAX_ELEMS]
             if fresh:
                 t = rng.choice(fresh)
@@ -478,11 +530,19 @@ def model_tensors_from_recipes(recipes) -> dict[int, MTensor]:
             cov = kw.get("cov", True)
             cov = list(range(arr.ndim)) if cov is True else ([] if cov is False else list(cov))
             ts[r["slot"]] = MTensor(arr, cov, [i for i in range(arr.ndim) if i not in cov],
-                                    int8=1 if kw.get("dt") == "b" else False)
+                                    int8={"b": 1, "i8": 127}.get(kw.get("dt"), 0))
         elif k == "ctensor":
             arr = np.array(a[0], dtype=np.int64) + 1j * np.array(a[1], dtype=np.int64)
             cov = list(kw.get("cov", []))
             ts[r["slot"]] = MTensor(arr, cov, [i for i in range(arr.ndim) if i not in cov])
+        elif k == "tensorcoll":
+            arr = np.array(a[0]).astype(np.int64)
+            rel = kw.get("cov", True)
+            rank = kw.get("rank", 1)
+            rel = list(range(rank)) if rel is True else ([] if rel is False else list(rel))
+            cov = [1 + i for i in rel]
+            ts[r["slot"]] = MTensor(arr, cov, [i for i in range(1, arr.ndim) if i not in cov],
+                                    int8={"b": 1, "i8": 127}.get(kw.get("dt"), 0), free=1)
         elif k == "eps":
             n, cov = a
             ts[r["slot"]] = MTensor(W.eps_ref(n).astype(np.int64), range(n) if cov else [], [] if cov else range(n), True)
@@ -513,13 +573,13 @@ def expectations(case: dict, state: dict | None = None) -> dict[int, tuple]:
             elif op == "eps":
                 n, cov = st["n"], st["cov"]
                 mt = MTensor(W.eps_ref(n).astype(np.int64), range(n) if cov else [], [] if cov else range(n), True)
-                exp[i] = ("ok", (mt.arr, len(mt.cov), len(mt.con), 0.0, False))
+                exp[i] = ("ok", (mt.arr, len(mt.cov), len(mt.con), 0.0, 0, 0))
                 if "to" in st:
                     ts[st["to"]] = mt
             elif op == "delta":
                 n, p = st["n"], st["p"]
                 mt = MTensor(W.delta_ref(n, p), range(p), range(p, 2 * p), int8=(p == n and p > 1))
-                exp[i] = ("ok", (mt.arr, p, p, 0.0, False))
+                exp[i] = ("ok", (mt.arr, p, p, 0.0, 0, 0))
                 if "to" in st:
                     ts[st["to"]] = mt
             elif op == "tcopy":
@@ -600,7 +660,9 @@ def expectations(case: dict, state: dict | None = None) -> dict[int, tuple]:
                     val = d.evaluate(ts)
                     exp[i] = ("ok", val + (_all_int8(d, ts),))
                     if "to" in st:
-                        ts[st["to"]] = MTensor(val[0], range(val[1]), range(val[1], val[1] + val[2]), _all_int8(d, ts))
+                        nf = val[4]
+                        ts[st["to"]] = MTensor(val[0], range(nf, nf + val[1]), range(nf + val[1], nf + val[1] + val[2]),
+                                               _all_int8(d, ts), free=nf)
             elif op in ("mul", "tprod", "pow"):
                 a = st["a"]
                 if a not in ts or ("b" in st and st["b"] not in ts) or ts[a].arr.ndim == 0 or \
@@ -619,7 +681,7 @@ def expectations(case: dict, state: dict | None = None) -> dict[int, tuple]:
                         k = st["k"]
                         if k == 1:
                             mt = ts[a]
-                            exp[i] = ("ok", (mt.arr, -1, -1, 0.0, False, mt.cov, mt.con))
+                            exp[i] = ("ok", (mt.arr, -1, -1, 0.0, mt.free, 0, mt.cov, mt.con))
                             continue
                         prev = a
                         for j in range(k - 1):
@@ -642,7 +704,9 @@ def expectations(case: dict, state: dict | None = None) -> dict[int, tuple]:
 def _all_int8(d: MDiagram, ts) -> int:
     """0 if some node has a wide dtype; otherwise the largest value the (narrow) result dtype can hold: 127 if an
     int8 node takes part, 1 if all nodes are bool. numpy keeps the narrow dtype when ALL operands have it."""
-    caps = [ts[t].int8 for t in d.nodes]
+    # rank-0 nodes do not widen the result: numpy 1.x promotes 0-d operands by VALUE (a 0-d int64 holding -1
+    # counts as int8), so int8 x int8 x scalar stays int8
+    caps = [ts[t].int8 for t in d.nodes if ts[t].arr.ndim > 0]
     if not caps or any(c == 0 for c in caps):
         return 0
     return max(caps)
@@ -660,7 +724,7 @@ def mk_violation(step, kind, detail, flags=()) -> dict:
 
 
 def compare_value(step, got, exp_payload, flags=()) -> dict | None:
-    arr, ncov, ncon, bound, all_int8 = exp_payload[:5]
+    arr, ncov, ncon, bound, nfree, all_int8 = exp_payload[:6]
     if isinstance(got, BaseException):
         return mk_violation(step, "unexpected-exception",
                             f"model predicts a value, library raised {type(got).__name__}: {got}", flags)
@@ -668,16 +732,18 @@ def compare_value(step, got, exp_payload, flags=()) -> dict | None:
         return mk_violation(step, "not-a-tensor", f"library returned {type(got).__name__}", flags)
     if all_int8 and bound > int(all_int8):
         return "skip"  # overflow of all-int8 (epsilon) / all-bool diagrams is an input/dtype matter, out of scope here
-    if len(exp_payload) > 5:
-        cov, con = exp_payload[5], exp_payload[6]
+    if len(exp_payload) > 6:
+        cov, con = exp_payload[6], exp_payload[7]
         if sorted(got._covariant_indices) != list(cov) or sorted(got._contravariant_indices) != list(con):
             return mk_violation(step, "index-types", f"expected cov={list(cov)} con={list(con)}, got "
                                 f"cov={sorted(got._covariant_indices)} con={sorted(got._contravariant_indices)}", flags)
     else:
-        if got.tensor_shape != (ncov, ncon) or sorted(got._covariant_indices) != list(range(ncov)) or \
-                sorted(got._contravariant_indices) != list(range(ncov, ncov + ncon)) or got.free_indices != 0:
+        if got.tensor_shape != (ncov, ncon) or sorted(got._covariant_indices) != list(range(nfree, nfree + ncov)) or \
+                sorted(got._contravariant_indices) != list(range(nfree + ncov, nfree + ncov + ncon)) or \
+                got.free_indices != nfree:
             return mk_violation(step, "index-types",
-                                f"expected type ({ncov},{ncon}) covariant-first, got {got.tensor_shape} "
+                                f"expected type ({ncov},{ncon}) covariant-first after {nfree} collection axis, got "
+                                f"{got.tensor_shape} free={got.free_indices} "
                                 f"cov={sorted(got._covariant_indices)} con={sorted(got._contravariant_indices)}", flags)
     if got.array.shape != arr.shape:
         return mk_violation(step, "shape", f"expected shape {arr.shape}, got {got.array.shape}", flags)
